@@ -78,25 +78,31 @@ struct RunOut {
     kind: String,
     bytes: Option<Vec<u8>>,
     panic: Option<String>,
+    /// number of `read_samples` calls the source received
+    reads: usize,
 }
 
 fn run_encode(case: &SchedCase, samples: &[i32], multithread: bool) -> RunOut {
     let mut cfg = case.cfg.clone();
     cfg.multithread = multithread;
     let Ok(vcfg) = enc::verified(&cfg) else {
-        return RunOut { kind: "config-rejected".into(), bytes: None, panic: None };
+        return RunOut { kind: "config-rejected".into(), bytes: None, panic: None, reads: 0 };
     };
     let limit = enc::sane_bits(samples.len(), case.inp.bps);
+    let reads = std::sync::atomic::AtomicUsize::new(0);
     let r = catch(|| {
         let mut src = TestSource::new(samples, case.inp.channels, case.inp.bps, case.inp.rate, if case.src == SrcKind::Mem { SrcKind::Int } else { case.src }).with_faults(case.faults.clone());
         src.fill_empty_at_end = case.fill_empty_at_end;
         src.packet = case.packet;
         src.hint = case.len_hint;
-        flacenc::encode_with_fixed_block_size(&vcfg, src, cfg.block_size).map(|s| to_bytes(&s, limit))
+        let r = flacenc::encode_with_fixed_block_size(&vcfg, &mut src, cfg.block_size).map(|s| to_bytes(&s, limit));
+        reads.store(src.reads, std::sync::atomic::Ordering::Relaxed);
+        r
     });
+    let reads = reads.load(std::sync::atomic::Ordering::Relaxed);
     match r {
-        Ok(r) => RunOut { kind: kind_of(&r), bytes: r.ok(), panic: None },
-        Err(p) => RunOut { kind: "panic".into(), bytes: None, panic: Some(format!("{} at {}", p.msg, p.loc)) },
+        Ok(r) => RunOut { kind: kind_of(&r), bytes: r.ok(), panic: None, reads },
+        Err(p) => RunOut { kind: "panic".into(), bytes: None, panic: Some(format!("{} at {}", p.msg, p.loc)), reads },
     }
 }
 
@@ -240,6 +246,19 @@ pub fn exec_case(case: &SchedCase) -> ExecResult {
     if !s1.leaked.is_empty() {
         r.viols.push(("threads-alive-at-return".into(), format!("{} thread(s) still alive when the call returned ({}): {:?}; {ctxs}", s1.leaked.len(), s1.out.kind, s1.leaked)));
         r.exit_after = true;
+    }
+    // With one worker the frames are encoded in order and the feeder is at most two buffers ahead: after a frame has
+    // failed, the source must not be read much further (an endless source would otherwise never be released).
+    // (a byte source wraps the planted value into the width: then there is no failure, and `reference.kind` is "ok")
+    if case.purpose == "c06" && case.cfg.workers == Some(1) && case.packet == 0 && reference.kind != "ok" && case.src != SrcKind::Bytes {
+        if let Some(k0) = case.faults.iter().filter_map(|f| if let Fault::Range(k, _) = f { Some(*k) } else { None }).min() {
+            if !case.faults.iter().any(|f| matches!(f, Fault::ReadErr(k) | Fault::Width(k) if *k <= k0)) && k0 < nframes {
+                r.classes.push("one-worker:reads-after-a-failed-frame-bounded".into());
+                if s1.out.reads > k0 + 5 {
+                    r.viols.push(("feeder-keeps-reading-after-a-failed-frame(workers=1)".into(), format!("block {k0} holds a sample outside the width, yet the source was read {} times (of {} blocks) before the call returned {}; {ctxs}", s1.out.reads, nframes, s1.out.kind)));
+                }
+            }
+        }
     }
     if s1.out.kind != "panic" && s1.out.kind != reference.kind {
         r.viols.push((format!("result-kind-differs:single={}:multi={}", reference.kind, s1.out.kind), format!("single-thread returns {}, multi-thread returns {}; {ctxs}", reference.kind, s1.out.kind)));
@@ -628,7 +647,7 @@ pub fn run_c05(ctx: &Ctx) {
 
 pub fn run_c06(ctx: &Ctx) {
     ctx.rule(
-        "fault enumeration: for 1..=6-frame inputs every fault position k in 0..=frames x {read error, out-of-range sample} x workers 1..=3 x 4 schedules (complete over positions); generated part: sets of faults, workers 1..=5, generated schedules, fault-free controls; \
+        "fault enumeration: for 1..=6-frame inputs every fault position k in 0..=frames x {read error, out-of-range sample} x workers 1..=3 x 4 schedules (complete over positions); with one worker and a bad sample early in a 60..100-frame input the source must not be read more than five blocks past the failed one (an endless source must be released); generated part: sets of faults, workers 1..=5, generated schedules, fault-free controls; \
          oracle under the scheduler: the call returns (no dead-lock verdict), result kind equals the single-thread run of the same faulty source, no thread panicked, no thread alive at return, fault-free runs give frames 0..n-1 exactly once with bytes equal to single-thread; \
          non-trivial = fault at k >= 1 with >= 2 workers, or a fault-free control with >= 2 frames",
     );
@@ -672,6 +691,18 @@ pub fn run_c06(ctx: &Ctx) {
                     }
                 }
             }
+        }
+    }
+    // one worker, a bad sample early in a long input: the source must be released soon after the failed frame
+    for k in [0usize, 1, 2, 5, 9] {
+        for s in 0..scheds.min(6) {
+            let mut cfg = CfgSpec::default();
+            cfg.block_size = 32;
+            cfg.multithread = true;
+            cfg.workers = Some(1);
+            let frames = k + 60 + 7 * s;
+            let inp = InputSpec { channels: 1, bps: 16, rate: 44100, len: frames * 32 - 3, chans: vec![gen::ChanSpec { segs: vec![gen::Seg { class: 5, amp: 3, p: 77 }] }], rel: 0, seed: (k * 10 + s) as u64, explicit: None };
+            grid.push(SchedCase { purpose: "c06".into(), cfg, inp, src: SrcKind::Int, fill_empty_at_end: s % 2 == 0, faults: vec![Fault::Range(k, 5)], env: None, strategy: (s % 5) as u8, pct_depth: 1, choices: vec![], sched_seed: crate::util::mix(ctx.seed, (9000 + k * 10 + s) as u64), sched_seed2: 0, packet: 0, len_hint: false });
         }
     }
     let n = grid.len() as u64;
